@@ -53,7 +53,23 @@ def run(ctx):
         (inv if pol > 0 else fwd if pol < 0 else fwd).append(c)
         if pol == 0:
             inv.append(c)
-    if not tr:
+    merged = None
+    if len(tr) == 1 and isinstance(tr[0].args[1], ast.Name):
+        # one transpose site whose axes are a local: `axes = F(perm)` and, under `if inv_perm:`, `axes = np.argsort(axes)`
+        an = tr[0].args[1].id
+        dfs_ = [d for d in walk_no_nested(ps.node) if isinstance(d, ast.Assign) and len(d.targets) == 1 and isinstance(d.targets[0], ast.Name) and d.targets[0].id == an
+                and d.lineno < tr[0].lineno]
+        fw_ = [d for d in dfs_ if _flag_polarity(path_conds(m, ps, d, Nn), "inv_perm") == 0]
+        iv_ = [d for d in dfs_ if _flag_polarity(path_conds(m, ps, d, Nn), "inv_perm") > 0]
+        if len(fw_) == 1 and len(iv_) == 1 and fw_[0].lineno < iv_[0].lineno:
+            a_f_ = N(fw_[0].value)
+            ivv = iv_[0].value
+            if isinstance(ivv, ast.Call) and m.resolve_call(ps, ivv).key == "numpy.argsort" and len(ivv.args) == 1 and isinstance(ivv.args[0], ast.Name) and ivv.args[0].id == an:
+                merged = (a_f_, ("call", "numpy.argsort", (a_f_,), ()), fw_[0], iv_[0])
+    if merged is not None:
+        ctx.ob("R-SIB", ps, "inverse-axes==argsort(forward-axes)", True, f"inverse axes = argsort({show(merged[0])}) (re-bound under inv_perm)", merged[3])
+        ctx.ob("R-SIB", ps, "both-branches-transpose-same-array", True, "one transpose site serves both directions", tr[0])
+    elif not tr:
         ctx.ob("R-SIB", ps, "inverse-axes==argsort(forward-axes)", None,
                "no np.transpose(array, axes) site found in permute_systems (vector branch rewritten?)", required=False)
     else:
@@ -106,7 +122,7 @@ def run(ctx):
         ctx.ob("R-LAYOUT", ps, "reshape(dims reversed)<=>order=F", None, "no reshape driven by `dim` found", required=False)
     # axes conjugation
     if fwd and layout_rev is not None:
-        a_f = N(fwd[0].args[1])
+        a_f = merged[0] if merged is not None else N(fwd[0].args[1])
         axes_rev = has_reversal(a_f)
         # complement: (n-1) - perm  <=> a sum containing neg(perm-ish) and len(perm)
         compl = any(isinstance(s, tuple) and s and s[0] == "neg" and mentions_name(s, "perm") for s in subterms(a_f))
@@ -334,18 +350,29 @@ def run(ctx):
     scal = [nd for nd in walk_no_nested(sw.node) if isinstance(nd, ast.If) and "isinstance(dim, int)" in unparse(nd.test)]
     if scal:
         okv = False
-        for st in ast.walk(scal[0]):
+        # the expansion may sit in a module-local helper called from the scalar branch: look there as well (one level)
+        scopes = [scal[0]]
+        helpers_ = []
+        for c_ in ast.walk(scal[0]):
+            if isinstance(c_, ast.Call):
+                g_ = getattr(m.resolve_call(sw, c_), "func", None)
+                if g_ is not None and g_.module is sw.module and g_ is not sw:
+                    helpers_.append(g_)
+                    scopes.append(g_.node)
+        for st in [x for sc_ in scopes for x in ast.walk(sc_)]:
             if isinstance(st, ast.Assign) and isinstance(st.targets[0], ast.Subscript) and isinstance(st.targets[0].value, ast.Name) and st.targets[0].value.id == "dim" \
                     and isinstance(st.value, ast.Constant) and st.value.value == 1:
                 sel = st.targets[0].slice
                 cmpn = [x for x in ast.walk(sel) if isinstance(x, ast.Compare) and len(x.ops) == 1 and isinstance(x.ops[0], ast.Eq)]
                 if cmpn and "rho_dims" in unparse(cmpn[0]) and any(isinstance(x, ast.Constant) and x.value == 1 for x in ast.walk(cmpn[0])):
                     # must precede the divisibility raise
-                    raises = [r for r in ast.walk(scal[0]) if isinstance(r, ast.Raise)]
+                    raises = [r for sc_ in scopes for r in ast.walk(sc_) if isinstance(r, ast.Raise) and any(r is y for y in ast.walk(sc_)) and any(st is y for y in ast.walk(sc_))]
                     okv = all(st.lineno < r.lineno for r in raises)
             if isinstance(st, ast.IfExp) and isinstance(st.test, ast.Compare) and isinstance(st.test.ops[0], ast.Eq) and \
                     any(isinstance(x, ast.Constant) and x.value == 1 for x in ast.walk(st.test)) and unparse(st.body).replace(" ", "") in ("[1,1]", "(1,1)"):
                 okv = True
+        if not okv and helpers_ and not any("dim" in unparse(x) and "/" in unparse(x) for x in ast.walk(scal[0]) if isinstance(x, ast.Assign)):
+            okv = None  # the expansion is delegated and was not recognised in the helper
         ctx.ob("R-KIND", sw, "scalar dim: a side of total size 1 (vector input) gets local dimensions 1", okv,
                "rows of the expanded table whose total is 1 are set to 1 before the divisibility test" if okv else
                "the scalar expansion [dim, total/dim] is applied to a side of size 1 as well: for a 1-D or column vector total/dim = 1/dim is not an integer, "
